@@ -103,6 +103,14 @@ CHECKS = {
         note="In-memory storage; values are dyadic so negation/means/percentiles are exact; ties are rejected and counted (0 on this tree).",
         design="3/C13",
     ),
+    "C14": dict(
+        engine="seqx",
+        category="model_checking",
+        technique="bounded-exhaustive enumeration of tree-shaped define-by-run programs and grids x seeds x failure/prune patterns x split points of the run, oracle = each reachable leaf exactly once and self-termination",
+        text="All tree-shaped define-by-run programs up to depth 2 (thorough 3) and 9 (12) leaves over 7 parameter domains (conditional branches, branches of different depth, re-used names with different ranges), all grids up to 3 parameters x 3 values incl. None/bool/nan, crossed with seeds {0,1,2}, failure patterns (i-th evaluation fails / is pruned, deterministic raise at an inner node, KeyboardInterrupt), every split of the run into 1-3 optimize calls, avoid_premature_stop, stale RUNNING trials and pre-existing/enqueued trials: the multiset of evaluated leaves equals the set of reachable leaves, each once, and the last optimize() stops by itself.",
+        note="Sequential optimize on in-memory storage (journal file for a subset). A KeyboardInterrupt between two suggests of one evaluation is outside (documented BruteForce limitation).",
+        design="3/C14",
+    ),
     "C15": dict(
         engine="seqx-lattice",
         category="exploration",
@@ -110,6 +118,14 @@ CHECKS = {
         text="All multisets of points from small integer lattices in 1-5 dimensions (duplicates, ties, dominated points, points on the reference boundary, +-inf alphabet) are fed to compute_hypervolume, _fast_non_domination_rank (all penalty vectors, all n_below) and _solve_hssp (all subset sizes on all mutually non-dominated multisets) and compared with exact oracles. Nothing is claimed off the lattice.",
         note="Value-domain property: the family degenerates to exhaustive enumeration of a finite argument lattice; indeterminate 0*inf volumes are accepted either way.",
         design="3/C15",
+    ),
+    "C16": dict(
+        engine="seqx",
+        category="model_checking",
+        technique="bounded-exhaustive enumeration of pruner settings x trial histories x report sequences on real studies, safety predicates derived from the statement and the docstrings",
+        text="For every pruner (median, percentile, successive halving, Hyperband, patient, threshold, nop) a parameter grid x histories of up to 2 (thorough 3) other trials in states COMPLETE/PRUNED/RUNNING with intermediate values on step subsets of {0..3} (gaps, NaN) x every report sequence of the current trial over {-1,0,1,2,3,nan}, both directions: should_prune() is False during warm-up, before the start-up trials, within the patience window and for a trial that strictly dominates everything reported so far; threshold prunes iff the checked value is NaN or out of bounds on a checking step; nop never prunes; the Hyperband bracket is a function of (study name, trial number) only.",
+        note="In-memory storage; safety-only oracle (never demands that a pruner prunes, except threshold's iff).",
+        design="3/C16",
     ),
     "C17": dict(
         engine="seqx",
@@ -127,6 +143,14 @@ CHECKS = {
         note="SciPy is the trusted reference; tolerances are stated in vf/c18.py and the measured maxima are written to the evidence on every run.",
         design="3/C18",
     ),
+    "C19": dict(
+        engine="procx",
+        category="model_checking",
+        technique="stateless model checking at SQL-statement level over real SQLite (single-writer lock modelled, worker death at every statement boundary) plus sequential retry-chain enumeration",
+        text="2 (thorough 3) workers with their own heartbeat-enabled RDBStorage objects on one SQLite file run fail_stale_trials and/or study.ask(); every interleaving of their SQL statements up to the preemption bound, and the death of a sweeper before every statement/commit of its sweep; trial patterns: stale RUNNING (plain with param/report/user attr, enqueued with fixed params, two stale), fresh heartbeat, no heartbeat, finished with an old heartbeat; max_retry in {0,1,None}. Checked: each stale trial FAILed once a sweep completed, callback at most once per failed trial across workers, at most one retry per failure and <= max_retry in a chain, retry carries params/user attrs/fixed params and a correct retry history, protected trials untouched.",
+        note="SQLite only (heartbeats exist only on RDB); time is owned by the environment (heartbeat rows back-dated by SQL).",
+        design="3/C19",
+    ),
     "C20": dict(
         engine="seqx",
         category="model_checking",
@@ -138,13 +162,13 @@ CHECKS = {
 }
 
 ENGINES = [
-    dict(name="procx", path="vf/simfs.py", serves_properties=["C05", "C07"],
+    dict(name="procx", path="vf/simfs.py", serves_properties=["C03", "C05", "C07", "C19"],
          kind_free_text="processes as baton-scheduled threads over a simulated file system / virtual clock; every syscall a scheduling or crash point; state caching on (file image, per-process syscall-history digests)"),
     dict(name="seqx-lattice", path="vf/c15.py", serves_properties=["C11", "C15", "C18"],
          kind_free_text="bounded-exhaustive enumeration of finite argument lattices with exact or reference oracles"),
     dict(name="thx", path="vf/thx.py", serves_properties=["C03", "C04"],
          kind_free_text="stateless exploration of thread interleavings of the real code under a controlled scheduler, preemption-bounded"),
-    dict(name="seqx", path="vf/c01.py", serves_properties=["C01", "C02", "C06", "C08", "C09", "C12", "C13", "C17", "C20"],
+    dict(name="seqx", path="vf/c01.py", serves_properties=["C01", "C02", "C06", "C08", "C09", "C12", "C13", "C14", "C16", "C17", "C20"],
          kind_free_text="bounded-exhaustive explicit-state search over operation sequences of the real code with reference-model / brute-force oracles"),
 ]
 
